@@ -91,6 +91,12 @@ TEMPLATES = {
     "IFONGOTOELSE": 'IF B = 2 THEN ON A GOTO {G} , {H} : PRINT "{t}" ELSE PRINT "{t}" : ON A GOTO {H} : PRINT "{t}"',
     "GOSUBTAIL": 'GOSUB {S} : PRINT "{t}" : GOTO {G}',
     "GOTOTAIL": 'GOTO {G} : PRINT "{t}"',
+    # ELSE IF chains whose arms are all line numbers but whose first THEN part is statements; lone THEN GOSUB / THEN GOTO
+    "ELIFSLL": 'IF A = 1 THEN PRINT "{t}" ELSE IF B = 2 THEN {G} ELSE {H}',
+    "ELIFSLLL": 'IF A = 1 THEN PRINT "{t}" : PRINT "{t}" ELSE IF B = 2 THEN {G} ELSE IF B = 3 THEN {H} ELSE {G}',
+    "IFTHENGOSUB": 'IF A = 1 THEN GOSUB {S}',
+    "IFTHENGOTO": 'IF A = 1 THEN GOTO {G}',
+    "IFTHENGOSUB2": 'IF A = 1 THEN GOSUB {S} : PRINT "{t}"',
     "END": "END",
     "STOP": "STOP",
     "IFEND": "IF A = 1 THEN END",
@@ -158,7 +164,7 @@ def sequences(tier):
                 continue
             seqs.append(s)
     if tier == "thorough":
-        core = [n for n in names if n not in ("ELIFNOELSE", "FOR2MIX", "PP", "IFELSE2", "ELIF2", "FORDOWN", "FORSTEP", "FORJ", "GOSUB2", "IFSS", "NEXTI", "FORIF", "FORLINE", "NEXTBARE", "STOP", "END", "SET", "IFLS", "IFSL", "ELIFSL", "IFEND", "FORVAR", "IFNUM", "IFNUMELSE", "ELIFNUM", "ELIFNUML", "FOR3LISTBARE", "FOR4LISTBARE", "FOR3LIST3", "FOR3BARELIST", "FORSYMBARE", "FORSYMDOWN", "FORSYMSTEP", "FORSYM2", "FORSYMIF", "FORSYMGOTO", "IFIFOR2L", "IFIFAND", "IFIFELSE", "ONGOTOTAIL2", "ONGOSUBTAIL", "IFONGOTOELSE", "GOSUBTAIL", "GOTOTAIL")]
+        core = [n for n in names if n not in ("ELIFNOELSE", "FOR2MIX", "PP", "IFELSE2", "ELIF2", "FORDOWN", "FORSTEP", "FORJ", "GOSUB2", "IFSS", "NEXTI", "FORIF", "FORLINE", "NEXTBARE", "STOP", "END", "SET", "IFLS", "IFSL", "ELIFSL", "IFEND", "FORVAR", "IFNUM", "IFNUMELSE", "ELIFNUM", "ELIFNUML", "FOR3LISTBARE", "FOR4LISTBARE", "FOR3LIST3", "FOR3BARELIST", "FORSYMBARE", "FORSYMDOWN", "FORSYMSTEP", "FORSYM2", "FORSYMIF", "FORSYMGOTO", "IFIFOR2L", "IFIFAND", "IFIFELSE", "ONGOTOTAIL2", "ONGOSUBTAIL", "IFONGOTOELSE", "GOSUBTAIL", "GOTOTAIL", "ELIFSLLL", "IFTHENGOTO", "IFTHENGOSUB2")]
     else:
         core = ["P", "IFL", "IFSG", "IFELSE", "IFLL", "ELIF", "GOSUB", "ONGOTO", "FORBARE", "FOR2BARE", "FOR", "IFSTOP", "GOTO"]
     for s in itertools.product(core, repeat=3):
